@@ -21,7 +21,7 @@ from harness.e2e_idle import bounded_idle_races
 
 PROPERTY = Property(
     'C01', 'Sequence numbers: the client view never diverges from the server',
-    contracts=[S.sm_update, S.sm_remove, S.compare] + S.CONTRACTS_LINK + [ST.do_command_sel, RS.handle_updates],
+    contracts=[S.sm_update, S.sm_remove, S.compare] + S.CONTRACTS_LINK + [ST.do_command_sel, ST.do_fetch, ST.do_store, ST.do_search, RS.handle_updates],
     registry=dict(list(ST.REG.items()) + list(S.REG.items())),
     bounded=[Bounded(
         'two sessions on one mailbox, client model',
